@@ -20,7 +20,7 @@ from ..ref import sem
 PROPERTY = "C06"
 TECHNIQUE = "differential execution: emitted bytes in an independent WebAssembly engine vs the real VM; refusals counted (inside the subset: judged); workload includes constructs outside the backend's subset"
 LEVEL_TEXT = ("Seeded random straight-line scalar modules (the backend's subset: must agree), the directed outside-subset family "
-              "(locals, stores to parameters, branches, loops, casts, calls, %, logic, <=, !=, compound assignment) and random "
+              "(locals, stores to parameters, branches, loops, casts, calls, %, logic, <=, !=, compound assignment, int literals beyond the signed 32-bit range in comparisons and divisions) and random "
               "scalar-core programs (must agree or be refused), both optimisation settings, 6-10 inputs per function over i32 and "
               "f32 boundary values. Every emitted module is validated and executed in the reference engine and compared with the "
               "VM run of the same IR module.")
